@@ -113,3 +113,17 @@ package scenario
 //@ tag Target validate required
 //@ tag ReflectPort config reflect_port
 //@ tag Timeout config timeout
+
+// A shot takes the scenario as it is and gives the call templates the data sources under "source".
+//@ func (g *Gun) Shoot
+//@ props C10 C15 C20
+//@ requires typeis(am, *Scenario) && am.(*Scenario) != nil && g.gun != nil && g.gun.Aggr != nil && g.gun.Stub != nil && g.templ != nil && g.gun.Log != nil
+//@ requires forall(j, 0, len(am.(*Scenario).Calls), forall(k, 0, len(am.(*Scenario).Calls[j].Preprocessors), am.(*Scenario).Calls[j].Preprocessors[k] != nil) && forall(k, 0, len(am.(*Scenario).Calls[j].Postprocessors), am.(*Scenario).Calls[j].Postprocessors[k] != nil))
+//@ at call g.shoot assert [the-given-scenario-with-its-data-sources] arg(ammo) == am.(*Scenario) && has(arg(templateVars), "source")
+
+//@ func (g *Gun) reportErr
+//@ props C10
+//@ nilsafe
+//@ requires sample != nil && g.gun != nil && g.gun.Aggr != nil
+//@ ensures [one-failed-sample-or-nothing] ev(report) == old(ev(report)) + ite(err != nil, 1, 0)
+//@ ensures [the-error-is-attached] imp(err != nil, sample.err == err && sample.fields[netsample.keyProtoCode] == 0)
